@@ -167,7 +167,7 @@ func runCheck(prog *Program, prop, tier, verif, only string, loadSecs float64, t
 		if !c.hasProp(prop) {
 			continue
 		}
-		if c.Kind == "func" || c.Kind == "closure" {
+		if (c.Kind == "func" || c.Kind == "closure") && !c.Opts["trusted"] {
 			if only == "" || strings.Contains(c.Key, only) {
 				targets = append(targets, c)
 			}
@@ -323,7 +323,7 @@ func runCheck(prog *Program, prop, tier, verif, only string, loadSecs float64, t
 	usedExt := map[string]bool{}
 	for _, rp := range reports {
 		for _, u := range rp.Uses {
-			if strings.HasSuffix(u, "[extern]") || strings.HasSuffix(u, "[interface]") {
+			if strings.HasSuffix(u, "[extern]") || strings.HasSuffix(u, "[interface]") || strings.HasSuffix(u, "[trusted]") || strings.HasSuffix(u, "[fnvalue]") {
 				usedExt[u] = true
 			}
 		}
